@@ -404,14 +404,30 @@ def r07_4(ck):
                        'sits under',
                        'a port path is resolved from %s instead of self'
                        % A.unparse(A.call_receiver(c)), c)
-    # leaf / '**' returns the node itself
+    # leaf / '**' returns the node itself - and nothing else does
     ok = False
+    schema_p = A.params_of(f.node)[1]
     for s in A.walk_no_nested(f.node):
-        if isinstance(s, ast.Assign) and isinstance(
-                s.targets[0], ast.Name) and s.targets[0].id in views \
-                and A.is_name(s.value, 'self'):
-            sg = cfg.guards(cfg.node(s))
-            ok = True
+        site = (isinstance(s, ast.Assign) and isinstance(
+            s.targets[0], ast.Name) and s.targets[0].id in views
+            and A.is_name(s.value, 'self')) or (
+            isinstance(s, ast.Return) and A.is_name(s.value, 'self'))
+        if not site:
+            continue
+        sg = cfg.guards(cfg.node(s))
+        good = any(
+            (a[0] == 'opaque' and a[2] == 'Or' and a[3] is True and
+             'self.leaf' in a[1] and "'**'" in a[1]) or
+            a == ('truthy', 'self.leaf') or
+            (a[0] == '==' and "'**'" in a[1:] and schema_p in a[1:])
+            for a in sg)
+        ck.require(good, 'R07.4', f, s,
+                   "the node itself is the view only for a leaf or the "
+                   "'**' schema",
+                   'the whole node is handed out as the view under %s: a '
+                   'branch is then read with everything below it, also '
+                   'variables the process did not declare' % sorted(sg), s)
+        ok = ok or good
     ck.require(ok, 'R07.4', f, f.node.name,
                "a leaf (or '**') is viewed as the node itself", None)
 
